@@ -62,6 +62,13 @@ def gen_cfgs(ctx, n):
         if rng.random() < 0.5:
             cfg.ops += ['l11'] + ['f1'] * cfg.accum + ['s']
         cfgs.append(cfg)
+    # memory_usage() between backward() and step() while hook-queued factor all-reduces sit in an open bucket (the library
+    # flushes the buckets first, precisely so that this call never waits for a future nobody launched)
+    for world, k in ((2, 2), (2, 1), (4, 2)):
+        cfg = kfacsim.Config(rng, world=world, k=k, hook=True, accum=1, cap_mb=25.0, colocate=True)
+        cfg.hyper['factor_update_steps'] = 1
+        cfg.ops = ['f1', 'm', 's', 'f1', 'm', 's', 'm']
+        cfgs.append(cfg)
     # factor updates in step() that find no new batch statistics (eval-mode iteration, reset_batch() before step(), two steps
     # in a row): every rank re-reduces the unchanged running averages, whichever rank still holds an unresolved future
     for i in range(max(6, n // 12)):
